@@ -130,4 +130,30 @@ example : consistent 3 { live := [⟨1, 1⟩, ⟨3, 2⟩, ⟨5, 3⟩], nested :=
     ∧ validCand { live := [⟨1, 1⟩, ⟨3, 2⟩, ⟨5, 3⟩], nested := [⟨0, 9⟩], evid := [0], idx := [2], iter := 1 } ⟨4, 4⟩ = true := by
   decide +kernel
 
+/-! ### a signal while the initial live points are being drawn -/
+
+/-- the current source binds `self.live_points` only after the draw loop of `populate_live_points` (table fact,
+regenerated on every run) -/
+theorem populate_publishes_after_fill : populatePublishesAfterFill = true := by decide
+
+/-- **A signal during the initial population is safe.**  Whatever number `k` of initial draws had been made, the
+handler's checkpoint holds `live_points = None`; the resumed run draws its initial points again and starts from a full,
+NaN-free live set in ascending likelihood order (for every `n`, every draw sequence of the killed and of the new
+process). -/
+theorem signal_during_population_safe (n : Nat) (draws draws' : List Pt) (k : Nat) (hn : draws'.length = n) :
+    populatePickled populatePublishesAfterFill n draws k = none ∧
+      fullLive n (populateResumed populatePublishesAfterFill n draws draws' k) = true := by
+  rw [populate_publishes_after_fill]
+  refine ⟨rfl, ?_⟩
+  simp only [populateResumed, populatePickled, fullLive, if_true]
+  have hs := sortPts_sorted draws'
+  simp [sortPts_length, hn, List.filterMap_map, hs]
+
+example := signal_during_population_safe 2 [⟨1, 1⟩, ⟨2, 2⟩] [⟨5, 7⟩, ⟨3, 8⟩] 1 rfl
+
+/-- …and it would not be if the half-filled array were bound first (the shape of the seeded change C13-d): a signal after
+one of three draws leaves a checkpoint whose live set has NaN rows, and the resumed run keeps it. -/
+theorem signal_during_population_fails_without :
+    fullLive 3 (populateResumed false 3 [⟨4, 1⟩, ⟨2, 2⟩, ⟨9, 3⟩] [⟨5, 7⟩, ⟨3, 8⟩, ⟨1, 9⟩] 1) = false := by decide
+
 end NessaiVerif.C13
